@@ -11,8 +11,8 @@
  "kind": "bounded",
  "bound": "declaration specifiers `_Alignas(OP)` followed by the identifier x (an object) and `;`",
  "timeout": 200, "replay": false,
- "assumes": ["next()/consume()/expect() are a token-script stand-in (PP.*); attr()/gnuattr() see no attribute (ATTR.*)",
-             "typename() (DECL.typename) is replaced by a stub: the operand token is a type name with a given type object, or not a type name; intconstexpr() (EXPR.*/EVAL.*) by a stub yielding the operand's value; tagspec() not reached",
+ "assumes": ["next()/consume()/expect() are a token-script stand-in (PP units); attr()/gnuattr() see no attribute (ATTR units)",
+             "typename() (DECL.typename) is replaced by a stub: the operand token is a type name with a given type object, or not a type name; intconstexpr() (expr.c, eval.c) by a stub yielding the value of the operand; tagspec() not reached",
              "no native replay: replaced callees are static"]
 }
 */
